@@ -151,6 +151,19 @@ class Disposable:
         self.enter_calls += 1
         W.event("d-enter", self.owner, self.idx)
         how = self.spec.get("enter", "ok")
+        if self.spec.get("spawn"):
+            # a disposable may start helper tasks in the scope it is being entered for (the scope's task group is already current)
+            from haiway import ctx
+
+            name = f"{self.owner}.d{self.idx}.worker"
+
+            async def worker() -> None:
+                await W.sched.gate(f"lp-{name}")
+
+            W.tasks[name] = ctx.spawn(worker)
+            W.task_owner[name] = self.owner
+            W.spawned_by_disposable.add(name)
+            W.event("spawned", name, self.owner)
         if how.startswith("gate"):
             await W.sched.gate(f"{self.owner}.d{self.idx}.enter")
         if how.endswith("raise"):
@@ -197,6 +210,7 @@ class World:
         self.disposables: dict[str, list[Disposable]] = {}
         self.tasks: dict[str, asyncio.Task[Any]] = {}
         self.task_owner: dict[str, str | None] = {}
+        self.spawned_by_disposable: set[str] = set()
         self.exit_snapshot: dict[str, dict[str, bool]] = {}  # block -> {task spawned into it: done() at the instant the block was left}
         self.capture = LogCapture()
         self.uid = 10_000
